@@ -611,7 +611,13 @@ func (ef *errflow) explore(fn *ssa.Function, origin Site, evals []ssa.Value) (Ve
 					return
 				}
 				if st.mode == 1 {
-					if ef.strictWrap {
+					// io.EOF replaced by io.ErrUnexpectedEOF (the inline form of "the end of the file inside a record is not
+					// a regular end"): the error stays in the truncation class that the strict mode is about
+					eofToUnexpected := false
+					if ef.strictWrap && st.via == "io.EOF" && errIdx < len(x.Results) {
+						eofToUnexpected = valueDependsOn(x.Results[errIdx], func(v ssa.Value) bool { return globalLoad(v) == "io.ErrUnexpectedEOF" })
+					}
+					if ef.strictWrap && !eofToUnexpected {
 						bad = append(bad, fmt.Sprintf("identity lost: on the failure path a different error (not wrapping this one with %%w) is returned at %s", ef.p.Pos(x.Pos())))
 					}
 					// the failure is replaced by another error: fine unless that error is an end/absence signal that
